@@ -573,6 +573,13 @@ class C19(Check):
                     add("json_amt %s %s_vec %s" % (sg, base, " ".join(str(rng.choice(pool)) for _ in range(n))),
                         "amt/%s-%s-vec" % (sg, base))
 
+        # long amount sequences (a reader that pre-sizes from a capped size hint, a fixed buffer): 1023 .. 1025, 4097, 65537
+        for sg in ("u", "s"):
+            for base in ("pico", "xmr"):
+                for n in (255, 256, 257, 1023, 1024, 1025, 4097) + ((65537,) if thorough else ()):
+                    add("json_amt %s %s_vec %s" % (sg, base, " ".join(str((7 * k + n) % 1000003) for k in range(n))),
+                        "amt/%s-%s-vec-long" % (sg, base))
+
         # ---- address strings
         texts = [A.b58_enc(A.blob_of(*addr_fields(t))) for t in addr_values[:12]] + list(A.REPO_ADDRS)
         for s in texts:
